@@ -35,7 +35,7 @@ func init() {
 			"one process per shard, cases run sequentially: no concurrent modification of the destination while Helm runs (no TOCTOU exploration)",
 		},
 		RequiredFloors: []string{"load:accept", "load:reject-parent", "load:reject-abs", "expand:wrote-inside", "expand:reject", "extract:wrote-inside", "extract:reject",
-			"layout:symlink-scoped", "size:reject-file", "size:reject-total", "size:accept", "download:wrote", "pull:untarred", "install:installed", "mgr:lock-written", "mgr:symlink-planted"},
+			"layout:symlink-scoped", "size:reject-file", "size:reject-file-within-total", "size:reject-total", "size:accept", "download:wrote", "pull:untarred", "install:installed", "mgr:lock-written", "mgr:symlink-planted"},
 	})
 }
 
@@ -117,6 +117,20 @@ func (x *explorer) floors(cs Case, r result) {
 		} else {
 			if strings.HasSuffix(r.Outcome, "err:file-too-large") {
 				c.Floor("size:reject-file")
+				// vacuity guard for "rejected without reading beyond the limit": a member far above the
+				// per-file limit (more than the 511-byte slack) in an archive that is within the total budget
+				var tot, big int64
+				for _, e := range cs.Entries {
+					if e.Type == "reg" && e.Size > 0 {
+						tot += e.Size
+						if e.Size > big {
+							big = e.Size
+						}
+					}
+				}
+				if big > cs.FileLimit+511 && tot <= cs.TotalLimit && r.BytesPulled > 0 {
+					c.Floor("size:reject-file-within-total")
+				}
 			}
 			if strings.HasSuffix(r.Outcome, "err:total-too-large") {
 				c.Floor("size:reject-total")
@@ -569,12 +583,15 @@ func sizeOptions(F, T int64) []sizeOpt {
 		{"reg", F, -1, "pax"}, {"reg", F + 1, -1, "pax"}, {"reg", T + 5000, -1, "pax"},
 		{"reg", F + 1, -1, "b256"}, {"reg", -5, 0, "b256"}, {"reg", 1 << 40, 0, "b256"},
 		{"symabs", F + 1, -1, ""}, {"symabs", 0, -1, ""}, {"dir", F + 1, -1, ""}, {"xglob", F + 1, -1, ""}, {"xglob", T + 5000, -1, ""},
+		// above the per-file limit by more than the counting oracle's slack, yet within the total budget (when T allows):
+		// a loader that only rejects such a member after reading it is seen by the bytes pulled, not by the result
+		{"reg", F + 600, -1, ""}, {"reg", T, -1, ""}, {"reg", T - 1, -1, "pax"},
 	}
 	return o
 }
 
 func phaseSizes(x *explorer) {
-	limits := [][2]int64{{1000, 2500}, {512, 1024}, {700, 700}}
+	limits := [][2]int64{{1000, 2500}, {512, 1024}, {700, 700}, {512, 8192}}
 	if x.c.Thorough() {
 		limits = append(limits, [2]int64{1, 1}, [2]int64{4096, 100000})
 	}
@@ -635,6 +652,34 @@ func phaseSizes(x *explorer) {
 				}
 			}
 		}
+		// oversize LAST member, large against everything before it and within the remaining total budget:
+		// prefix of 0..2 small files, then one member of F+512 .. remaining bytes, size declared three ways
+		overLast := 0
+		for _, pre := range [][]int64{{}, {1}, {F}, {1, 1}, {1, F}, {F, F}} {
+			var used int64
+			for _, p := range pre {
+				used += p
+			}
+			rem := T - used
+			for _, sz := range []int64{F + 512, F + 600, 2 * F, 4 * F, 8 * F, rem - 1, rem, rem + 1} {
+				if sz <= F {
+					continue
+				}
+				for _, via := range []string{"", "pax", "b256"} {
+					for _, lead := range []string{"", "bom"} {
+						var es []Entry
+						for i, p := range pre {
+							es = append(es, Entry{Name: fmt.Sprintf("x/f%d", i), Type: "reg", Size: p, Actual: -1})
+						}
+						es = append(es, Entry{Name: "x/big", Type: "reg", Size: sz, Actual: -1, SizeVia: via, Lead: lead})
+						overLast += 2
+						x.do(Case{EP: "loadfiles", Entries: es, FileLimit: F, TotalLimit: T})
+						x.do(Case{EP: "loadarchive", Entries: with([]Entry{reg("x/Chart.yaml", chartYAML("x"))}, false, es...), FileLimit: F, TotalLimit: T})
+					}
+				}
+			}
+		}
+		x.c.Bound(fmt.Sprintf("size_oversize_last_cases_%d_%d", F, T), fmt.Sprint(overLast))
 		// BOM-prefixed contents: all sequences of <=3 entries over bom+plain options with at least one BOM file
 		tBom := time.Now()
 		bo, pl := bomOptions(F, T)
